@@ -29,7 +29,7 @@ CONFIG = {
     "C04": dict(gen=[], drivers=[]),
     "C05": dict(gen=[], drivers=["Json"]),
     "C06": dict(gen=[], drivers=["Json"]),
-    "C07": dict(gen=[], drivers=["TextCodec"]),
+    "C07": dict(gen=["Formats"], drivers=["TextCodec"]),
     "C08": dict(gen=[], drivers=["Store"]),
     "C09": dict(gen=[], drivers=["Store"]),
     "C10": dict(gen=["Models"], drivers=["ModelsF"], extra_prop_files=["PgVerif/Tie/Models.lean"]),
